@@ -261,7 +261,7 @@ def shard(spec):
 
 def run(ctx):
     D = list(docs(ctx.quick))
-    dev = 1.5 if ctx.quick else 2
+    dev = 1.5 if ctx.quick else 3
     specs = [(D[i::128], dev) for i in range(128) if D[i::128]]
     acc = ctx.pmap(shard, specs)
     cov = {
